@@ -159,3 +159,16 @@ META["C07"] = dict(
     trusted_base=COMMON_TB,
     assumptions=["user CDFs are non-decreasing, right-continuous, 0 before the first knot and 1 from the last", "discrete built-ins: when y is within 1e-10 of a cumulative level either neighbouring grid point is accepted"],
 )
+
+META["C15"] = dict(
+    level_text="Theorems (Lean): if the normal equations X^T W X b = X^T W y hold with w>=0 then for every b', SSE(b') - SSE(b) = (b'-b)^T X^T W X (b'-b) >= 0 and the weighted residual is orthogonal to every basis function, so a validated exact solve is a minimiser; the evaluation loop of F computes sum c_i x^i; tricube weights vanish at the window radius; the window start found by the search predicate selects q consecutive points that are nearest to the query. Correspondence: LinearLeastSquares, PolynomialRegression (coefficients and F) and LOESS of the real code against exact rational solves (validated by A b = rhs on every case) within a tolerance scaled by the exact condition number; orthogonality and no-descent evaluated on the code's own coefficients; LOESS locality, order independence, history independence of the returned closure and unmodified inputs checked bit for bit.",
+    level_note="Trusted: Lean kernel, harness sampling. The Gauss-Jordan solve is validated per input, not proved. gonum's solver and math.Pow are not modelled; designs with kappa_inf(X^T W X) > 1e10 are skipped (counted).",
+    technique="Lean 4 proofs (normal equations imply minimiser) + exact rational differential correspondence with condition-number-scaled tolerance",
+    rule="lls xs ys ws X (1..4 smooth basis functions from {1,x,sin,cos,exp,1/(1+x^2),x^2,tanh 2x} evaluated by the harness and transmitted), preg xs ys ws degree evalpoints (degree 0..6, data from a polynomial of degree <= d, optionally noisy), loess xs ys degree span queries (degree 0..2, span in (0,1], sorted and shuffled input, queries at the ends, at data points and inside). 3..40 distinct x in [-2,2] (or rescaled/offset), optional positive weights. non-trivial = every case not skipped",
+    exhaustive_part="",
+    trusted_base=COMMON_TB,
+    assumptions=["distinct x; LOESS windows hold at least degree+3 points", "coefficient tolerance 256(n+p+2)*kappa*eps*scale"],
+)
+
+for _p in ["C03", "C09", "C11", "C14", "C16", "C17"]:
+    META[_p]["extra_modules"] = ["MV.Proofs.Interval"]
